@@ -461,10 +461,10 @@ def run_sequence(args):
 
 def run_check():
     ck = Check("C17", level="proof")
-    ck.explanation = ("Lean (Model/FrameIR.lean, Props/C17frm.lean): the 22 operations anchored by C17 are translated from the current source "
+    ck.explanation = ("Lean (Model/FrameIR.lean, Props/C17frm.lean): 25 operations (the 22 anchored by C17 plus from_wwm, from_era5, from_ndbc) are translated from the current source "
                       "into an imperative IR (assign-with-sharing / store; objects with cells values, coords, attrs, encoding, dims, name, held); "
                       "the may-alias analysis `writes` is proved sound for all programs and all traces (frame_ir_general) and the write-set of "
-                      "each regenerated program is decided: empty for 15 operations, an exact residual set for 9 (attribute setter, helper "
+                      "each regenerated program is decided: empty for 16 operations, an exact residual set for 9 (attribute setter, helper "
                       "objects' own dictionaries, the in-place longitude swap on its own argument, sel_* through isel views). Trusted: the "
                       "fresh/view/share tables of xarray/numpy methods, flow-insensitivity, summaries of untranslated calls. The residual "
                       "sets and everything dynamic are carried by the exploration: deep snapshots (values bit-for-bit, coords, attrs, "
